@@ -10,6 +10,7 @@
 -/
 import UnytProofs.Lemmas.C01
 import UnytModel.Ref.C01
+import UnytModel.Generated.C01Writes
 
 set_option linter.unusedSectionVars false
 set_option linter.unusedVariables false
@@ -277,7 +278,7 @@ end
 
 namespace Witness
 
-instance : RPow Rat := ⟨fun x _ => x⟩
+scoped instance : RPow Rat := ⟨fun x _ => x⟩
 
 def metre : UnitR Rat := ⟨⟨⟨1, [("m", 1)]⟩, 1, 0, Dim.dLength, true⟩, "m"⟩
 def second : UnitR Rat := ⟨⟨⟨1, [("s", 1)]⟩, 1, 0, Dim.dTime, true⟩, "s"⟩
@@ -442,6 +443,40 @@ theorem registry_rules_are_modelled :
       match Rule.ofName r.2.1 with | .other _ => false | _ => true) = true := by
   decide +kernel
 
+/-- every rule constructor of the model -/
+def allRules : List Rule :=
+  [.preserve, .difference, .multiply, .divide, .returnWithoutUnit, .passthrough, .power, .sqrt, .cbrt,
+   .square, .reciprocal, .arctan2, .comparison, .invert, .bitop, .floorDivide]
+
+/-- the model enters the dimension-check / rescale block for exactly the rule functions named in the
+    `unit_operator in (…)` tuple of the *live source* of `__array_ufunc__` (regenerated by `ast`), the
+    only rule replaced on a mismatch beforehand is `_floor_divide_units` (by `_divide_units`), and the
+    model's refusing rules (`Rule.checked`) are that tuple minus the replaced rule — so removing a
+    rule from the dispatcher's tuple breaks this obligation, not only the correspondence -/
+theorem checked_rules_match_dispatcher :
+    allRules.all (fun r => r.rescales == (Generated.dispatcherRescaleTuple.map Rule.ofName).contains r) = true
+    ∧ Generated.dispatcherRescaleTuple.all (fun n => match Rule.ofName n with | .other _ => false | _ => true) = true
+    ∧ Generated.dispatcherMismatchFallback = [("_floor_divide_units", "_divide_units")]
+    ∧ allRules.all (fun r => r.checked ==
+        ((Generated.dispatcherRescaleTuple.map Rule.ofName).contains r
+          && !((Generated.dispatcherMismatchFallback.map fun p => Rule.ofName p.1).contains r))) = true := by
+  decide +kernel
+
+/-- `__array_ufunc__` and `_coerce_iterable_units` never write through an input operand: every
+    write site of the live source (subscript / attribute stores, augmented assignments, `out=`
+    keywords and positional outputs of NumPy calls, `np.copyto`, in-place methods — regenerated by
+    `ast`, with the alias closure of the input names) has a base object among the `out=` arrays, their
+    views and the keyword dictionary, none among the input aliases; and the alias closure found the
+    names the dispatcher is known to use for its inputs.  This is what carries the "operands are
+    what they were" clause for *input* operands at the level of obligations (the model's `Effect`
+    type can only speak about `out=`); the before/after snapshots of the harness check it per call. -/
+theorem dispatcher_never_writes_through_inputs :
+    Generated.dispatcherWriteSites.all (fun w =>
+      Ref.C01.dispatcherWritable.contains w.2.1 && !Generated.dispatcherInputAliases.contains w.2.1) = true
+    ∧ Ref.C01.dispatcherInputNames.all (fun n => Generated.dispatcherInputAliases.contains n) = true
+    ∧ Generated.coerceWriteSites.all (fun w => !Generated.coerceInputAliases.contains w.2.1) = true := by
+  decide +kernel
+
 /-- table obligation and dispatcher theorem combined: for every commensurability-requiring ufunc
     of the reference (outside the exclusion list), under the regenerated tables, a dimension
     mismatch outside the exceptions raises -/
@@ -459,7 +494,7 @@ theorem commensurable_ufunc_refuses_mismatch
     (hdl : (resolved i0 c0).v.isDimensionless = false ∧ (resolved i1 c1).v.isDimensionless = false)
     (heq : (canon == Generated.ident_equal) = false ∧ (canon == Generated.ident_not_equal) = false)
     (hpw : (canon == Generated.ident_power) = false) :
-    (dispatch C c).result = .error .UnitOperationError := by
+    (dispatch C c).result = .error .UnitOperationError ∧ (dispatch C c).effects = [] := by
   have hall := commensurable_ufuncs_are_checked_partial
   rw [List.all_eq_true] at hall
   have hmem : n ∈ Ref.C01.commensurabilityRequiring.filter (fun n => !Ref.C01.uncheckedUfuncs.contains n) := by
@@ -474,8 +509,16 @@ theorem commensurable_ufunc_refuses_mismatch
       have hzb : zeroBare i0 = false ∧ zeroBare i1 = false := by
         rw [zero_adoption_is_documented, Bool.or_eq_false_iff] at hz; exact hz
       simp [documentedException, hzb.1, hzb.2, hdl.1, hdl.2, hcu, hT, Tables.generated, heq.1, heq.2]
-    exact (dispatch_raises_on_mismatch C hs c i0 i1 rule c0 c1 hin
-      (by rw [hcu, hT]; exact hpw) (by rw [hcu, hT]; exact hr) hck h0 h1 hd hx).1
+    exact dispatch_raises_on_mismatch C hs c i0 i1 rule c0 c1 hin
+      (by rw [hcu, hT]; exact hpw) (by rw [hcu, hT]; exact hr) hck h0 h1 hd hx
+
+/-- the alias hypothesis of the combined theorem is met by every name of the reference list: each
+    resolves (under its own name) to a ufunc that the regenerated registry knows -/
+theorem reference_ufuncs_resolve :
+    Ref.C01.commensurabilityRequiring.all (fun n =>
+      match Generated.npUfuncAliases.find? (·.1 == n) with
+      | some (m, canon) => m == n && (Tables.generated.ruleOf canon).isSome
+      | none => false) = true := by decide +kernel
 
 /-- non-vacuity: `hypot` meets the hypotheses of the combined theorem -/
 example : "hypot" ∈ Ref.C01.commensurabilityRequiring
@@ -485,16 +528,16 @@ example : "hypot" ∈ Ref.C01.commensurabilityRequiring
 
 /-- every value-merging array function × merging argument group is checked by its handler -/
 def C01_merging_full : Prop :=
-  Ref.C01.mergingFunctions.all (fun p => covered Generated.handlerChecks p.1 p.2) = true
+  Ref.C01.mergingFunctions.all (fun p => covered Generated.handlerChecks (Ref.C01.kindsFor p) p.1 p.2) = true
 
 theorem merging_functions_are_checked_partial :
     (Ref.C01.mergingFunctions.filter (fun p => !Ref.C01.uncheckedRows.contains p)).all
-      (fun p => covered Generated.handlerChecks p.1 p.2) = true := by decide +kernel
+      (fun p => covered Generated.handlerChecks (Ref.C01.kindsFor p) p.1 p.2) = true := by decide +kernel
 
 /-- the exclusion list is exact: each excluded row is in the reference and really is unchecked -/
 theorem unchecked_rows_counterexample :
     Ref.C01.uncheckedRows.all (fun p =>
-      Ref.C01.mergingFunctions.contains p && !covered Generated.handlerChecks p.1 p.2) = true := by
+      Ref.C01.mergingFunctions.contains p && !covered Generated.handlerChecks (Ref.C01.kindsFor p) p.1 p.2) = true := by
   decide +kernel
 
 theorem C01_merging_counterexample : ¬ C01_merging_full := by
@@ -576,6 +619,44 @@ theorem validateV2_numbers_unchecked (ueq : UnitV K → UnitV K → Bool) (ref :
   simp [validateV2, h]
 
 end
+
+/-- composition of the handler table with the validators: a check of one of the three modelled kinds
+    (what a `covered` row of kind `validate` / `validate_v2` / `validate_side` runs), handed operands
+    among which two units differ in dimension — and, for the `_v2` kinds, not only plain numbers next
+    to the reference operand — refuses with `UnitInconsistencyError` -/
+theorem covering_check_refuses_mismatch {K : Type} [OfNat K 0] [OfNat K 1]
+    (ueq : UnitV K → UnitV K → Bool) (hs : UeqSound ueq) (kind : String)
+    (objs : List (Obj K)) (u v : UnitV K)
+    (hu : u ∈ unitsOfObjs objs) (hv : v ∈ unitsOfObjs objs) (hd : u.dim ≠ v.dim)
+    (hk : kind = "validate" ∨
+      ((kind = "validate_v2" ∨ kind = "validate_side") ∧
+        ∃ ref args, objs = .arr (some ref) :: args ∧ args.all Obj.isNumber = false)) :
+    runCheck ueq kind objs = .error .UnitInconsistencyError := by
+  rcases hk with hk | ⟨hk, ref, args, hobjs, hnum⟩
+  · subst hk
+    simp [runCheck, validate_refuses_mismatch ueq hs objs u v hu hv hd, Except.map]
+  · subst hobjs
+    have hmem : ∀ w, w ∈ unitsOfObjs (Obj.arr (some ref) :: args) → w = ref ∨ w ∈ unitsOfObjs args := by
+      intro w hw
+      simpa [unitsOfObjs, unitsOfObj] using hw
+    have hex : ∃ w, w ∈ unitsOfObjs args ∧ ref.dim ≠ w.dim := by
+      by_cases h1 : u.dim = ref.dim
+      · rcases hmem v hv with h | h
+        · subst h; exact absurd h1 hd
+        · exact ⟨v, h, fun e => hd (h1.trans e)⟩
+      · rcases hmem u hu with h | h
+        · subst h; exact absurd rfl h1
+        · exact ⟨u, h, fun e => h1 e.symm⟩
+    obtain ⟨w, hw, hdw⟩ := hex
+    have := validateV2_refuses_mismatch_partial ueq hs ref args w hw hdw hnum
+    rcases hk with hk | hk <;> subst hk <;> simp [runCheck, this]
+
+/-- non-vacuity: a side value in seconds next to a reference operand in metres -/
+example : runCheck (K := Rat) UnitV.eqv "validate_side"
+    [.arr (some Witness.metre.v), .arr (some Witness.second.v)] = .error .UnitInconsistencyError :=
+  covering_check_refuses_mismatch UnitV.eqv eqv_sound _ _ Witness.metre.v Witness.second.v
+    (by simp [unitsOfObjs, unitsOfObj]) (by simp [unitsOfObjs, unitsOfObj]) (by decide)
+    (Or.inr ⟨Or.inr rfl, _, _, rfl, rfl⟩)
 
 /-- non-vacuity: `[x_m, [y_m, z_s]]` meets the hypotheses of `validate_refuses_mismatch` -/
 example : validateConsistency (K := Rat) UnitV.eqv
